@@ -81,8 +81,10 @@ void va_arena_protect(int readonly) {
 }
 bool va_in_arena(const void* p) { return arena_base && (const unsigned char*)p >= arena_base && (const unsigned char*)p < arena_base + arena_size; }
 void va_arena_reset(void) { if (va.live == 0) arena_used = 0; }
-static void* back_alloc(size_t n) { return arena_base ? arena_alloc(n) : malloc(n ? n : 1); }
-static void back_free(void* p) { if (!arena_base) free(p); }
+static int arena_paused;
+void va_arena_pause(int on) { arena_paused = on; }
+static void* back_alloc(size_t n) { return arena_base && !arena_paused ? arena_alloc(n) : malloc(n ? n : 1); }
+static void back_free(void* p) { if (!va_in_arena(p)) free(p); }
 
 /* ------------------------------------------------------------------ allocator */
 struct va_stats va;
